@@ -302,6 +302,83 @@ func checkC05(c *Check) {
 	gets := callers(calling("~/internal/smtpconn/pool.P.Get"))
 	c.Hold("R4", "pool.Get:callers", token.NoPos, len(gets) == 1 && gets["connectionForDomain"] == 1, "pooled connections are taken outside connectionForDomain")
 
+	// ---- R3b: where the override comes from
+	c.Rule("R3b", "the message flag that lets the policies be skipped (TLSRequireOverride) is set only on the edge where the message's TLS-Required header field equals No (RFC 8689) – nowhere else in the server", 2)
+	{
+		nStores := 0
+		p.AllFuncs(p.ServerPkgs(), func(fi *FuncInfo) {
+			if strings.HasSuffix(p.Fset.Position(fi.Decl.Pos()).Filename, "_test.go") {
+				return
+			}
+			inf := fi.Info()
+			var stores []ast.Node
+			ast.Inspect(fi.Decl.Body, func(n ast.Node) bool {
+				if as, ok := n.(*ast.AssignStmt); ok {
+					for _, l := range as.Lhs {
+						if isField(inf, l, "MsgMetadata", "TLSRequireOverride") {
+							stores = append(stores, as)
+						}
+					}
+				}
+				return true
+			})
+			if len(stores) == 0 {
+				return
+			}
+			r := c.CtxOf(fi)
+			for i, st := range stores {
+				nStores++
+				as := st.(*ast.AssignStmt)
+				key := fi.Name() + ":override-store" + itoa(i+1)
+				// a copy of the same flag from another metadata object is not an origin
+				if len(as.Rhs) == 1 && mentionsField(inf, as.Rhs[0], "TLSRequireOverride") {
+					c.Hold("R3b", key, as.Pos(), true, "")
+					continue
+				}
+				pt, found := r.F.PtOf(as.Pos())
+				if !found {
+					c.Fail("R3b", key, as.Pos(), "undecided: store not located in the flow graph")
+					continue
+				}
+				w := r.F.World(func(atom ast.Expr) (bool, bool) {
+					// strings.EqualFold(<header>.Get("TLS-Required"), "No")  /  <…> == "No"
+					isHdr := func(e ast.Expr) bool {
+						call, ok := ast.Unparen(e).(*ast.CallExpr)
+						if !ok || methodName(call) != "Get" || len(call.Args) != 1 {
+							return false
+						}
+						sv, ok := constString(inf, call.Args[0])
+						return ok && strings.EqualFold(sv, "TLS-Required")
+					}
+					isNo := func(e ast.Expr) bool { sv, ok := constString(inf, e); return ok && strings.EqualFold(sv, "no") }
+					if call, ok := ast.Unparen(atom).(*ast.CallExpr); ok && isCall(inf, call, "strings.EqualFold") && len(call.Args) == 2 {
+						if (isHdr(call.Args[0]) && isNo(call.Args[1])) || (isHdr(call.Args[1]) && isNo(call.Args[0])) {
+							return false, true
+						}
+					}
+					if be, ok := ast.Unparen(atom).(*ast.BinaryExpr); ok && (be.Op == token.EQL || be.Op == token.NEQ) {
+						if (isHdr(be.X) && isNo(be.Y)) || (isHdr(be.Y) && isNo(be.X)) {
+							return be.Op == token.NEQ, true
+						}
+					}
+					return false, false
+				})
+				// the world in which the header does not say "No": the store of `true` must be unreachable
+				setsTrue := true
+				if len(as.Rhs) == 1 {
+					if tv, ok := inf.Types[as.Rhs[0]]; ok && tv.Value != nil && tv.Value.String() == "false" {
+						setsTrue = false
+					}
+				}
+				path, f := r.F.Reach(Query{From: r.Entry(), Inclusive: true, Target: func(q Pt) bool { return q == pt }, AvoidEdge: w})
+				c.Hold("R3b", key, as.Pos(), !setsTrue || !f, "the override flag is set although the message does not carry `TLS-Required: No`: with the administrator's opt-in every such message is sent without MX/TLS policy checks: "+r.F.Describe(path))
+			}
+		})
+		if nStores < 2 {
+			c.Fail("R3b", "override-stores", token.NoPos, "undecided: expected the stores of the override flag in the SMTP and LMTP data handlers")
+		}
+	}
+
 	// ---- R5 REQUIRETLS
 	c.Rule("R5", "connectionForDomain: with REQUIRETLS the pooled connection is ignored and both level comparisons (TLS authenticated, MX authenticated) dominate MAIL, failing closed", 3)
 	c.Rule("R5b", "the remote target does not modify message-wide metadata per destination", 1)
